@@ -526,7 +526,7 @@ Definition probably_prime (n : Z) : bool :=
 Definition mod_fields (n w : Z) : list fld := [FMod n; FBig w].
 Definition mod_challenge_items n w := map fld_hval (mod_fields n w).
 
-(* Response.Verify(n, w, y); X and Z are *big.Int of either sign and any size (Proof.IsValid is never called) *)
+(* Response.Verify(n, w, y) *)
 Definition mod_response (n w y : Z) (r : bool * bool * Z * Z) : bool :=
   let '(a, b, x, z) := r in
   (powmod n z n =? y) &&
@@ -537,7 +537,20 @@ Fixpoint mod_rounds (n w : Z) (ys : list Z) (rs : list (bool * bool * Z * Z)) : 
   | y :: ys', r :: rs' => mod_response n w y r && mod_rounds n w ys' rs'
   | _, _ => false
   end.
+(* Proof.IsValid (since the fix "zkmod.Verify validates W and the responses"): W valid, Jacobi symbol -1, every X and Z valid *)
+Definition mod_resp_valid (n : Z) (r : bool * bool * Z * Z) : bool :=
+  let '(_, _, x, z) := r in valid_big n x && valid_big n z.
 Definition mod_verify (n w : Z) (rs : list (bool * bool * Z * Z)) (ys : list Z) : option bool :=
+  guard (negb (Z.even n || probably_prime n)) (
+  guard (valid_big n w) (
+  guard (jacobi w n =? -1) (
+  guard (forallb (mod_resp_valid n) rs) (
+  guard (mod_rounds n w ys rs)
+  accept)))).
+
+(* the verifier before that fix: Proof.IsValid was never called, X and Z were *big.Int of either sign and any size
+   (kept for the regression witness C10.ex_mod_v0_range_refuted) *)
+Definition mod_verify_v0 (n w : Z) (rs : list (bool * bool * Z * Z)) (ys : list Z) : option bool :=
   guard (negb (Z.even n || probably_prime n)) (
   guard (jacobi w n =? -1) (
   guard (valid_big n w) (
